@@ -49,7 +49,8 @@ def partition(rng, data):
         i += n
     if rng.random() < 0.3:
         chunks.insert(rng.randrange(len(chunks) + 1), b"")
-    return chunks[:4000]
+    # (an empty message is one empty chunk, not no chunk at all: the op needs its argument)
+    return chunks[:4000] or [b""]
 
 
 def generate(rng, tier, override=0):
